@@ -666,13 +666,16 @@ func (sm *SealManager) pgpEncryptShares(ctx context.Context, ns *namespace.Names
 			return nil, fmt.Errorf("failed to marshal key backup: %w", err)
 		}
 
+		// The namespace's own copy: a namespace barrier does not prefix the
+		// keys it is handed, so the bare path would be the root namespace's
+		// backup.
 		entry := &logical.StorageEntry{
-			Key:   coreBarrierUnsealKeysBackupPath,
+			Key:   NamespaceStoragePathPrefix(ns) + coreBarrierUnsealKeysBackupPath,
 			Value: buf,
 		}
 
 		if recovery {
-			entry.Key = coreRecoveryUnsealKeysBackupPath
+			entry.Key = NamespaceStoragePathPrefix(ns) + coreRecoveryUnsealKeysBackupPath
 		}
 
 		barrier := sm.namespaceBarrier(ns.Path)
@@ -821,16 +824,16 @@ func (sm *SealManager) RestartRotationVerification(nsUUID string, recovery bool)
 
 // RetrieveRotationBackup is used to retrieve any backed-up PGP-encrypted
 // unseal keys.
-func (sm *SealManager) RetrieveRotationBackup(ctx context.Context, nsPath string, recovery bool) (*RekeyBackup, error) {
+func (sm *SealManager) RetrieveRotationBackup(ctx context.Context, ns *namespace.Namespace, recovery bool) (*RekeyBackup, error) {
 	sm.lock.Lock()
 	defer sm.lock.Unlock()
 
-	path := coreBarrierUnsealKeysBackupPath
+	path := NamespaceStoragePathPrefix(ns) + coreBarrierUnsealKeysBackupPath
 	if recovery {
-		path = coreRecoveryUnsealKeysBackupPath
+		path = NamespaceStoragePathPrefix(ns) + coreRecoveryUnsealKeysBackupPath
 	}
 
-	barrier := sm.namespaceBarrier(nsPath)
+	barrier := sm.namespaceBarrier(ns.Path)
 	entry, err := barrier.Get(ctx, path)
 	if err != nil {
 		return nil, logical.CodedError(http.StatusInternalServerError, "error getting keys from backup: %w", err)
@@ -848,16 +851,16 @@ func (sm *SealManager) RetrieveRotationBackup(ctx context.Context, nsPath string
 }
 
 // DeleteRotationBackup is used to delete any backed-up PGP-encrypted unseal keys.
-func (sm *SealManager) DeleteRotationBackup(ctx context.Context, nsPath string, recovery bool) error {
+func (sm *SealManager) DeleteRotationBackup(ctx context.Context, ns *namespace.Namespace, recovery bool) error {
 	sm.lock.Lock()
 	defer sm.lock.Unlock()
 
-	path := coreBarrierUnsealKeysBackupPath
+	path := NamespaceStoragePathPrefix(ns) + coreBarrierUnsealKeysBackupPath
 	if recovery {
-		path = coreRecoveryUnsealKeysBackupPath
+		path = NamespaceStoragePathPrefix(ns) + coreRecoveryUnsealKeysBackupPath
 	}
 
-	barrier := sm.namespaceBarrier(nsPath)
+	barrier := sm.namespaceBarrier(ns.Path)
 	if err := barrier.Delete(ctx, path); err != nil {
 		return logical.CodedError(http.StatusInternalServerError, "error deleting backup keys: %w", err)
 	}
